@@ -18,6 +18,7 @@ SLACK_VARIANTS = [["-O3"], ["-O0", "-fshortcircuit-fallthroughs"], ["-O3", "--ma
 
 def profile(rng):
     p = gen.Profile(max_stmts=5)
+    p.safe_appc = True      # known finding (witness below): an overflowing expression append hoisted onto a consuming transition
     if rng.random() < 0.25:
         p.yields = True; p.w["yield_"] = 3
     return p
@@ -108,7 +109,9 @@ def run(ctx):
                 continue
             pairs.append((name, v, src, m0, r["machines"]["post_optimize"], kind, base, I))
             # the two machines of ONE compilation (before / after the optimisation loop) localise a failure to the passes
-    tasks = [mach.task_bisim(m0, m1) if kind == "strict" else mach.task_bbisim(m1, m0, I) for (_, _, _, m0, m1, kind, _, I) in pairs]
+    # parsers without an end function are never given the end-of-input symbol: their certificates cover the 256 bytes
+    has_eof = lambda base: "-feof-support" in base
+    tasks = [mach.task_bisim(m0, m1, has_eof(base)) if kind == "strict" else mach.task_bbisim(m1, m0, I, has_eof(base)) for (_, _, _, m0, m1, kind, base, I) in pairs]
     results = mach.run_machk(tasks)
     nbad = 0
     for (name, v, src, m0, m1, kind, base, I), res in zip(pairs, results):
@@ -141,6 +144,30 @@ def run(ctx):
         else:
             ctx.violation("equiv-check:%s:%s" % (name, " ".join(v)), "checker result %s" % res[:80],
                           {"program": src, "flags_variant": v + base, "broken": "certificate"}, found_input=False)
+    # known finding, one witness re-checked on every run: at -O3 the expression append of the next loop iteration is hoisted
+    # onto the transition that consumes ':'; when it overflows the handler is entered with that byte offered again
+    # (root shared with the C01 finding append-overflow-reoffers-byte; at -O0..-O2 the append waits for the next byte)
+    WSRC = 'out unterminated str[2] s0;\nparser {\n    try {\n        loop {\n            s0 += [1];\n            ":";\n        }\n    }\n    catch (outofspace) {\n        "af";\n    }\n}\n'
+    Iw = export.Interner(empty_setstr_is_delete=True)
+    w0, w3 = nm.compile_source(WSRC, ["-O0"], interner=Iw), nm.compile_source(WSRC, ["-O3"], interner=Iw)
+    if w0["verdict"] == "ok" and w3["verdict"] == "ok":
+        wres = mach.run_machk([mach.task_bbisim(w3["machines"]["post_optimize"], w0["machines"]["post_optimize"], Iw, False)])[0]
+        if wres != "ok":
+            import cdrv as _cd, shutil as _sh
+            obs = {}
+            for lvl in ("-O0", "-O3"):
+                wd = os.path.join(common.BUILD, "c05", "w" + lvl)
+                Pw = _cd.prepare(WSRC, [lvl], wd)
+                if Pw["ok"]:
+                    rc_, lines_, _ = _cd.run_c(Pw["wd"], Pw["cp"].init_vals() + "\nrun 4 1 1 1 1 58 58 97 102 0\n")
+                    obs[lvl] = [l.split("|")[0].strip() for l in lines_ if l.strip() != "--"]
+                    _sh.rmtree(wd, ignore_errors=True)
+            ctx.violation("equiv:witness:append-overflow-reoffers-byte-at-O3",
+                          "out unterminated str[2] s0; parser { try { loop { s0 += [1]; \":\"; } } catch (outofspace) { \"af\"; } } fed ::af returns DONE at -O0..-O2 and FAIL at -O3: the short-circuited machine runs the next iteration's append right behind the second ':' and, when it overflows, offers that ':' to the handler again",
+                          {"program": WSRC, "flags_ref": ["-O0"], "flags_variant": ["-O3"], "input": [58, 58, 97, 102], "certificate": wres[:200], "binaries": obs,
+                           "broken": "certificate BSearch.dfa_slack_cert_on"}, found_input=True)
+        else:
+            ctx.log("witness append-overflow-reoffers-byte-at-O3: the finding no longer reproduces")
     # C-level differential runs: binaries of the same program built at -O0, -O2 and -O3 under one (random) representation
     # option set must show the same hooks (with output snapshots), the same yield / finish codes and the same final outputs
     from concurrent.futures import ThreadPoolExecutor
@@ -192,9 +219,23 @@ def run(ctx):
                 if obs[k][0] != obs[0][0] or len(obs[k][1]) != len(obs[0][1]):
                     res["viol"] = {"kind": "binary-exit", "flags": built[k]["flags"], "rc": obs[k][0]}
                     break
-                for inp, a, b in zip(inputs, obs[0][1], obs[k][1]):
+                # a build with fall-through short-circuiting (-O3, -fshortcircuit-fallthroughs) may already have performed what the
+                # lazy build performs when the next byte arrives (the permitted one-byte slack): at the end of a finite input
+                # its hooks and codes may run ahead by a tail, and then the final outputs are not compared
+                ahead_ok = any(f in ("-O3", "-fshortcircuit-fallthroughs") for f in built[k]["flags"]) and \
+                    not any(f in ("-O3", "-fshortcircuit-fallthroughs") for f in built[0]["flags"])
+                def same(a, b):
                     norm = lambda o: json.dumps(o).replace(":TN", ":T1")
-                    if norm(a) != norm(b):
+                    if norm(a) == norm(b):
+                        return True
+                    if not ahead_ok or not (isinstance(a[0], str) and isinstance(b[0], str)):
+                        return False
+                    ha, hb = [x for x in a[0].split(";") if x], [x for x in b[0].split(";") if x]
+                    nh = lambda l: [x.replace(":TN", ":T1") for x in l]
+                    extra = (len(hb) - len(ha)) + (len(b[1]) - len(a[1]))
+                    return nh(hb[:len(ha)]) == nh(ha) and tuple(b[1][:len(a[1])]) == tuple(a[1]) and extra > 0
+                for inp, a, b in zip(inputs, obs[0][1], obs[k][1]):
+                    if not same(a, b):
                         res["viol"] = {"kind": "level-dependence", "flags_a": built[0]["flags"], "flags_b": built[k]["flags"], "input": inp, "obs_a": repr(a)[:300], "obs_b": repr(b)[:300]}
                         break
                 if res["viol"]:
@@ -219,7 +260,8 @@ def run(ctx):
     for i, (name, v, src, m0, m1, kind, base, I) in enumerate(small[:20 if quick else 100]):
         items.append(("%s %s" % (name, " ".join(v)),
                       ["Definition a_%d : dfa := %s." % (i, export.coq_dfa(m0)), "Definition b_%d : dfa := %s." % (i, export.coq_dfa(m1))],
-                      "dfa_equiv_cert a_%d b_%d" % (i, i), "dfa_equiv_cert_sound a_%d b_%d" % (i, i)))
+                      "dfa_equiv_cert_on %s a_%d b_%d" % ("true" if has_eof(base) else "false", i, i),
+                      "dfa_equiv_cert_on_sound %s a_%d b_%d" % ("true" if has_eof(base) else "false", i, i)))
     cres = mach.coq_certs("c05", items, per_file=5)
     for (name, ok, tail) in cres:
         if ok is False and not any(name.split(" ")[0] == p[0] and r != "ok" for p, r in zip(pairs, results)):
@@ -229,7 +271,7 @@ def run(ctx):
         "pairs_certified_in_coq": sum(1 for _, ok, _ in cres if ok), "pairs_certified_extracted": len(pairs),
         "variants": [" ".join(v) for v in STRICT_VARIANTS] + ([" ".join(v) for v in SLACK_VARIANTS] if have_slack else ["(short-circuit variants need BBisim: not built)"]),
         "compiler_verdicts_O0": dict(verdicts),
-        "theorems": ["Bisim.bisim_strict_sound", "Search.dfa_equiv_cert_sound"],
+        "theorems": ["Bisim.bisim_strict_sound_on", "Search.dfa_equiv_cert_on_sound", "BBisim.bbisim_sound", "BSearch.dfa_slack_cert_on_sound"],
         "checker_cmd": "ocaml/machk bisim (extracted) + coqc build/c05/cert_*.v",
     })
     ctx.samples += [{"program": p[0], "variant": " ".join(p[1]), "states": [len(p[3]["states"]), len(p[4]["states"])], "result": r[:40]} for p, r in list(zip(pairs, results))[::max(1, len(pairs) // 8)]][:10]
